@@ -50,7 +50,7 @@ void runRejectCase(Reporter &R, const std::string &cls, const std::vector<Cell<G
                    std::function<void(G &, Rng &, unsigned)> buildState, std::function<void(G &, Rng &)> mutateValid, uint64_t sub, bool isolate,
                    RejectCounters &rc) {
     Rng r = caseRng(R.args.seed, hashStr(cls + "reject"), sub);
-    unsigned variant = (unsigned)(sub % 8);
+    unsigned variant = (unsigned)(sub % 10);
     G g(0);
     buildState(g, r, variant);
     std::string stateDesc = snapshot(g);
